@@ -219,6 +219,12 @@ func Generate(r *sim.Rng, prop, tier string, idx int) *sim.Case {
 		genConc(r, c, keys)
 		return c
 	}
+	if prop == "C11" && mode == "seq" && r.Chance(1, 12) {
+		// a big population: more than a thousand live entries, filled and cleared a few times
+		// (what a cache does per entry it may do differently per thousand)
+		genBigPop(r, c, tier)
+		return c
+	}
 	capa := int64(sim.Pick(r, 1, 2, 3, 4, 64))
 	if prop == "C11" {
 		capa = int64(1 + r.Intn(8))
@@ -286,6 +292,34 @@ func Generate(r *sim.Rng, prop, tier string, idx int) *sim.Case {
 		}
 	}
 	return c
+}
+
+func genBigPop(r *sim.Rng, c *sim.Case, tier string) {
+	capa := sim.Pick(r, 1024, 1025, 1500, 2048, 2500)
+	c.Knobs["capacity"] = int64(capa)
+	c.Knobs["flavor"] = int64(sim.Pick(r, 0, 1, 3))
+	c.Sched.MaxSteps = 6000000
+	task := sim.Task{Name: "t0"}
+	next := 0
+	rounds := 2 + r.Intn(2)
+	for round := 0; round < rounds; round++ {
+		fill := capa - r.Intn(3) + sim.Pick(r, 0, 0, 40)
+		if r.Chance(1, 3) {
+			fill = 1024 * (1 + r.Intn(2)) // an exact multiple of a round number
+			if fill > capa {
+				fill = capa
+			}
+		}
+		for i := 0; i < fill; i++ {
+			task.Ops = append(task.Ops, sim.Op{K: "get", S: fmt.Sprintf("k%d", next)})
+			next++
+		}
+		task.Ops = append(task.Ops, sim.Op{K: "clear"})
+		for i := 0; i < 5+r.Intn(10); i++ {
+			task.Ops = append(task.Ops, sim.Op{K: sim.Pick(r, "get", "get", "remove"), S: fmt.Sprintf("k%d", next-1-r.Intn(12))})
+		}
+	}
+	c.Tasks = []sim.Task{task}
 }
 
 // hugeCapacity: "and larger" - capacities nothing ever reaches, chosen around
